@@ -13,6 +13,8 @@ type cloner struct {
 	info   *types.Info
 	subst  func(e ast.Expr) ast.Expr // non-nil result: use it instead of copying e
 	hitLit bool                      // a substitution was wanted inside a function literal (views give up then)
+	lits   bool                      // copy function literals too (the view then has literals of its own)
+	made   map[ast.Node]ast.Node     // original -> copy, when asked for
 }
 
 var (
@@ -51,6 +53,9 @@ func (c *cloner) node(n ast.Node) ast.Node {
 	}
 	switch x := n.(type) {
 	case *ast.FuncLit:
+		if c.lits {
+			break // copied like any other node
+		}
 		// kept as it is; a wanted substitution inside cannot be made
 		if c.subst != nil {
 			ast.Inspect(x.Body, func(m ast.Node) bool {
@@ -60,7 +65,9 @@ func (c *cloner) node(n ast.Node) ast.Node {
 				return !c.hitLit
 			})
 		}
-		return x
+		if !c.lits {
+			return x
+		}
 	case *ast.CommentGroup, *ast.Comment:
 		return x
 	}
@@ -105,6 +112,9 @@ func (c *cloner) node(n ast.Node) ast.Node {
 	}
 	out := nv.Interface().(ast.Node)
 	c.register(n, out)
+	if c.made != nil {
+		c.made[n] = out
+	}
 	return out
 }
 
